@@ -54,7 +54,7 @@ H={
  'C11-r10a':"missed at first; caught since jstimeout has the shapes throw-tostring-loop / getter-throw-tostring-loop - adding them exposed the genuine defect D58 in the unchanged code (repaired, e791252); the change was re-made on top of the repair",
  'C12-r10a':"missed at first (no generated specification named its own error node); caught since some do (Spec.ErrorNode = 'oops')",
  'C13-r10a':"missed at first; caught since the compile component has a loader whose first compilation fails at a broken pattern text, which is then corrected in the same value",
- 'C13-r10b':"NOT CAUGHT: mcrew GetSpec caches the compiled specification per file (mtime, size); needs a specification using %inline(...) and an edit of the inlined file while the service runs",
+ 'C13-r10b':"missed at first; caught since the mcrew operation sequences end with a probe that edits an %inline'd file while the service runs",
  'C14-r10a':"missed at first (mcrewroute crews had no store); caught since every fifth crew has a store that is down while the message and its offspring are processed",
  'C15-r10a':"missed at first; caught since the probe at the end of every sio history has one uncompilable specification among seven good updates and demands that the crew reports exactly what it did",
  'C15-r10b':"missed at first; caught since the sio timer scenarios (C17's) also run for C15",
